@@ -134,7 +134,7 @@ CHECKS["C02"] = {
         {"pkg": ".", "run": "^TestVerif_C02_", "inst": ["store_message.go", "internal/queue/simple.go", "internal/queue/priority.go"], Q: {"timeout": 900}, T: {"timeout": 3400, "shards": 8}},
     ],
     "mandatory_labels": {"all": ["tree/edge-attempt", "tree/duplicate", "tree/out-of-order-success", "random/edge-attempt", "random/duplicate",
-                                 "random/out-of-order-success", "random/re-registration", "random/two-senders", "random/push-before-store", "concurrent/dfs-schedules", "concurrent/contended-lock", "pipeline/arrival-beyond-key-window", "pipeline/undecryptable-below-decryptable"]},
+                                 "random/out-of-order-success", "random/re-registration", "random/two-senders", "random/push-before-store", "random/same-sender-device-on-two-groups", "concurrent/dfs-schedules", "concurrent/contended-lock", "pipeline/arrival-beyond-key-window", "pipeline/undecryptable-below-decryptable"]},
 }
 
 CHECKS["C09"] = {
